@@ -26,7 +26,7 @@ def _patched():
     import numpy
     from orquestra.quantum import wavefunction as WF
 
-    return ST.patched((WF, "np", ST.NpProxy(numpy)), (WF, "float", ST.float_shadow))
+    return ST.patched((WF, "np", ST.NpProxy(numpy)), (WF, "float", ST.float_shadow), (WF, "complex", ST.complex_shadow))
 
 
 def _norm2(parts):
